@@ -4,6 +4,7 @@ import XmppModel.Model.IbbReader
 import XmppModel.Model.IbbReaders
 import XmppModel.Model.IbbSend
 import XmppModel.Model.IbbClose
+import XmppModel.Model.IbbCloseProbe
 import XmppModel.Model.IbbBody
 import XmppModel.Model.IbbCarrier
 import XmppModel.Model.IbbTable
@@ -238,18 +239,7 @@ def handle (args : List String) : Option String :=
   | ["close", fault] =>
     -- C15 close <none|flush|send|reply|deadline>: Close with a fault at that step, then Read and a
     -- late data packet.  answer: ret=<ok|err> read=<EOF|BLOCK> data=<inf|ack>
-    let p := IbbClose.closeProgram
-    let fk : Option (Option Nat) :=
-      if fault = "none" ∨ fault = "reply" then some none
-      else if fault = "flush" then some (IbbClose.indexOf p .flush)
-      else if fault = "send" ∨ fault = "deadline" then some (IbbClose.indexOf p .sendCloseIQ)
-      else none
-    fk.map fun k =>
-      let r := IbbClose.run k p
-      let rx : RState := if r.rxClosed then Ibb.close ⟨true, 0, [], 0⟩ else ⟨true, 0, [], 0⟩
-      let rd := match readOut rx 8 with | .eof => "EOF" | .blocks => "BLOCK" | .data _ => "DATA"
-      let d := if fault = "send" then "skip" else showReply (recv std rx ⟨true, 0, []⟩).2
-      s!"ret={if r.failed then "err" else "ok"} read={rd} data={d}"
+    (IbbClose.closeOutcome fault).map fun (ret, rd, d) => s!"ret={ret} read={rd} data={d}"
   | ["open", acc] => do
     let a ← parseBool acc
     pure (if (openResult a).isSome then "conn" else "err")
